@@ -99,7 +99,7 @@ def check_case(case, ctx=None, idle_scale=1.0):
                             h.loop.create_task(h.client.send(m))
             h.log.on_event = on_event
         c = h.client_call('connect', 'http://localhost:5000', transports=case['transports'])
-        h.settle()
+        h.run_until(lambda: c.done, 30)
         tr = 'upgrade' if case['transports'] is None else case['transports'][0]
         if not c.done or c.exc is not None:
             raise V(impl, 'connect-failed', tr, 'connect(): done=%s exc=%r' % (c.done, c.exc), rep)
